@@ -247,6 +247,7 @@ def gen_tcp(rng, n, thorough):
         elif k < 0.65:     # "request / response": one endpoint only goes on after it has seen our half-close
             v = rng.choice([a, b])
             v["gate"] = rng.randrange(0, len(v["data"]) // 2 + 1)
+            v["idle_s"] = rng.choice([0, 0, 31, 600])
         out.append({"mode": "tcp", "a": a, "b": b})
     return out
 
@@ -264,7 +265,8 @@ def gen_tcp_reply_after_half_close(rng):
                          "wlimit": -1, "wkind": 0, "gate": -1, "wrap": wl}
                 tunnel = {"data": resp.hex(), "cuts": rand_cuts(rng, len(resp)) if len(resp) < 6000 else [],
                           "end": rng.choice([0, 0, 1]), "wd": rng.random() < 0.3, "wlimit": -1, "wkind": 0,
-                          "gate": rng.choice([0, 0, len(resp) // 2]), "wrap": wt}
+                          "gate": rng.choice([0, 0, len(resp) // 2]), "wrap": wt,
+                          "idle_s": rng.choice([0, 45, 45, 3600])}      # long silence after the half-close (logical clock)
                 decorate(rng, local), decorate(rng, tunnel)
                 out.append({"mode": "tcp", "a": local, "b": tunnel} if local_is_a else {"mode": "tcp", "a": tunnel, "b": local})
     return out
@@ -356,6 +358,36 @@ def own_value(c, o, rng):
     sched += [0, 0, 0, 1, 1] + [0] * rng.randrange(1, 5) + [rng.randrange(2) for _ in range(rng.randrange(0, 6))]
     sched += [0, 1] * (8 * n + 16)
     return [3, [bytes.fromhex(x) for x in c["dgrams"]], sched, bytes.fromhex(o["g"]["tunnel_out"])]
+
+
+def gen_udptc(rng, n):
+    """client SOCKS5 UDP tunnel endpoint (real udpTunnelConn.SendPacket / ReceivePacket): records coalesced into one
+    transport read, split across reads, empty reads in between, stream cut at any offset"""
+    out = []
+    for i in range(n):
+        k = rng.choice([2, 2, 3, 5, 9])
+        ds = [rand_bytes(rng, rng.choice([0, 1, 2, 7, 300, 5000])) for _ in range(k)]
+        total = sum(2 + len(d) for d in ds)
+        bounds, off = [], 0
+        for d in ds:
+            off += 2 + len(d)
+            bounds.append(off)
+        mode = i % 5
+        if mode == 0:
+            cuts = []                                   # everything in ONE read: all records coalesced
+        elif mode == 1:
+            cuts = [bounds[1]] + [100000]               # the first two records arrive together
+        elif mode == 2:
+            cuts = [bounds[0] + 1, 100000]              # first record + one byte of the next header
+        elif mode == 3:
+            cuts = [2 + len(d) for d in ds]             # one record per read (the easy case)
+        else:
+            cuts = rand_cuts(rng, total)
+        cut = rng.choice([-1, -1, -1, rng.randrange(total + 1), rng.choice(bounds)])
+        out.append({"mode": "udptc", "dgrams": [d.hex() for d in ds], "cut": cut,
+                    "tunnel": {"cuts": cuts, "end": rng.choice(END_KINDS), "wd": rng.random() < 0.3,
+                               "empties": rand_empties(rng)}})
+    return out
 
 
 def corpus():
@@ -450,6 +482,8 @@ def describe(c):
     if c["mode"] == "rt":
         return "rt dgram sizes %s cut=%s cuts=%s end=%s wd=%s" % ([len(x) // 2 for x in c["dgrams"]][:12], c.get("cut"),
                                                                  (c["tunnel"].get("cuts") or [])[:8], c["tunnel"].get("end"), c["tunnel"].get("wd"))
+    if c["mode"] == "udptc":
+        return "udptc datagram sizes %s cut=%s cuts=%s" % ([len(x) // 2 for x in c["dgrams"]], c.get("cut"), (c["tunnel"].get("cuts") or [])[:8])
     if c["mode"] == "udpgate":
         return "udpgate pre=%d datagram sizes %s" % (c["pre"], [len(x) // 2 for x in c["dgrams"]])
     if c["mode"] in ("udp", "udpreal", "vconn"):
@@ -492,6 +526,7 @@ def run(ctx, only_cases=None):
         cases += gen_vconn(rng, 200 if thorough else 28)
         cases += gen_udp_gate_flush(rng, 40 if thorough else 8)
         cases += gen_failure_kinds(rng, thorough)
+        cases += gen_udptc(rng, 300 if thorough else 45)
     outs = run_batch(binary, cases)
 
     # (iii) the property's predicate, evaluated by the harness on the real relays' own outputs
@@ -547,7 +582,7 @@ def run(ctx, only_cases=None):
             "real_udpconn_batch_path": 0, "real_udpconn_records_per_case": [], "real_udpconn_retried": 0, "real_udpconn_skipped": 0,
             "real_udpvirtualconn_slow_socket": 0, "stalled_tunnel_write_during_timed_flush": 0,
             "endpoints_with_empty_reads": 0, "read_failure_kinds": {str(k): 0 for k in range(10)},
-            "half_close_enforcing_endpoints": 0}
+            "half_close_enforcing_endpoints": 0, "socks_udp_tunnel_conn": 0, "tcp_idle_after_half_close": 0}
     for c in cases:
         for key in ("tunnel", "a", "b"):
             sp = c.get(key)
@@ -574,6 +609,10 @@ def run(ctx, only_cases=None):
             dist["tunnel_end_error"] += c["tunnel"].get("end", 0)
             dist["end_with_last_chunk"] += 1 if c["tunnel"].get("wd") else 0
             if u2.get("n_delivered", 0) >= 1 and c.get("cut", -1) >= 0:
+                nontrivial.add(h)
+        elif c["mode"] == "udptc":
+            dist["socks_udp_tunnel_conn"] += 1
+            if (o.get("tc") or {}).get("n_delivered", 0) >= 2:
                 nontrivial.add(h)
         elif c["mode"] == "udpgate":
             dist["stalled_tunnel_write_during_timed_flush"] += 1
@@ -603,6 +642,7 @@ def run(ctx, only_cases=None):
         else:
             dist["tcp"] += 1
             dist["tcp_gate"] += 1 if c["a"]["gate"] >= 0 or c["b"]["gate"] >= 0 else 0
+            dist["tcp_idle_after_half_close"] += 1 if c["a"].get("idle_s") or c["b"].get("idle_s") else 0
             for side in ("a", "b"):
                 if c[side]["gate"] >= 0:
                     dist["tcp_gated_endpoint_wrap"][str(c[side].get("wrap", 0))] += 1
